@@ -244,7 +244,9 @@ def check_text_pairs(case, ev):
         x = u.deanonymize(case["img_of"])
         toks = [t for t in toks] + [[n, ""] for n in (x, x ^ 1, x ^ 256) if not G.is_mask(n)]
     mk_text = (lambda n: G.v4_canon(n)) if fam == 4 else (lambda n: str(ipaddress.IPv6Address(n)))
-    line = " ".join(mk_text(n) + suf for n, suf in toks)
+    spelled = {i: t[2] for i, t in enumerate(toks) if len(t) > 2}  # another valid spelling of the same address
+    toks = [t[:2] for t in toks]
+    line = " ".join(spelled.get(i, mk_text(n)) + suf for i, (n, suf) in enumerate(toks))
     if case.get("prelude"):
         # a short-lived anonymizer with OTHER options handles some of the same tokens first and is
         # dropped before the one under test is created (state keyed by object identity or by text
@@ -252,7 +254,7 @@ def check_text_pairs(case, ev):
         pre, exc = guarded(G.mk, case["prelude"]["cfg"], fam)
         if exc is not None:
             return core.exc_finding(exc, case, "ctor/")
-        sub = " ".join(mk_text(n) + suf for i, (n, suf) in enumerate(toks) if i in case["prelude"]["idx"])
+        sub = " ".join(spelled.get(i, mk_text(n)) + suf for i, (n, suf) in enumerate(toks) if i in case["prelude"]["idx"])
         guarded(anonymize_ip_addr, pre, sub)
         del pre
     if case["via"] == "line":
@@ -277,7 +279,7 @@ def check_text_pairs(case, ev):
             imgs.append(int(ipaddress.ip_address(addr)))
         except ValueError:
             return Finding("text/output-token-not-an-address", "%r -> %r" % (line, out), case)
-    ev.case(case, len(toks) >= 2, ["text-v%d" % fam, "via-" + case["via"]] + (["after-short-lived-anonymizer"] if case.get("prelude") else []) + (["with-len-suffix"] if any(sf for _, sf in toks) else []))
+    ev.case(case, len(toks) >= 2, ["text-v%d" % fam, "via-" + case["via"]] + (["non-canonical-spelling"] if spelled else []) + (["after-short-lived-anonymizer"] if case.get("prelude") else []) + (["with-len-suffix"] if any(sf for _, sf in toks) else []))
     for i in range(len(toks)):
         for j in range(i + 1, len(toks)):
             k, k2 = G.cpl(toks[i][0], toks[j][0], W), G.cpl(imgs[i], imgs[j], W)
@@ -351,7 +353,13 @@ def _text_case(draw):
     W = 32 if fam == 4 else 128
     cfg = draw(G.config(networks="never"))
     a, b, k = draw(G.pair(W))
+    if fam == 6 and draw(st.booleans()):
+        # shaped addresses (zero groups, network addresses, ...) whose spellings use '::' in every position
+        a = draw(G.v6_int)
+        b = draw(G.neighbour(a, W))
     addrs = [a, b] + [draw(G.neighbour(draw(st.sampled_from([a, b])), W)) for _ in range(draw(st.integers(0, 2)))]
+    if fam == 6 and draw(st.integers(0, 2)) == 0:
+        addrs.append(draw(st.sampled_from(addrs)))  # the same address again (usually spelled differently)
     toks = []
     for n in addrs:
         if fam == 4 and G.is_mask(n):
@@ -360,6 +368,8 @@ def _text_case(draw):
         if draw(st.integers(0, 3)) == 0:
             suf = "/%d" % draw(st.integers(0, W))
         toks.append([n, suf])
+        if fam == 6 and draw(st.booleans()):
+            toks[-1].append(draw(G.v6_spelling(n, allow_len=False, allow_v4tail=False))[0])
     toks = toks or [[0x01020304 if fam == 4 else 1, ""]]
     prelude = None
     if draw(st.integers(0, 2)) == 0:
@@ -415,6 +425,83 @@ REPLAY["text_long"] = check_text_long
 def t_text_long(shard, nshards, seed, ev, known, n=6000):
     cases = [{"cfg": {"salt": "tl%d" % k, "B4": [8, 0][k % 2], "B6": 8, "prefixes": None, "networks": None, "mode": "default"}, "n": n, "start": core.derive("tl", seed, k) & G.M32, "stride": (core.derive("tls", seed, k) & 0xFFFFFF) | 0x10001} for k in range(nshards) if k % nshards == shard]
     return core.enum_drive(cases, check_text_long, ev, known, "text_long")
+
+
+def check_dir_nosalt(case, ev):
+    """One directory run with the salt option left at its default (netconan draws one for the run): the
+    images found in ALL output files together must satisfy the pair relation.  case: {fam, files: [[int]]}"""
+    import ipaddress
+    import os
+    import shutil
+    import tempfile
+
+    from netconan.anonymize_files import anonymize_files
+
+    fam = case["fam"]
+    W = 32 if fam == 4 else 128
+    txt = (lambda n: G.v4_canon(n)) if fam == 4 else (lambda n: str(ipaddress.IPv6Address(n)))
+    d = tempfile.mkdtemp(prefix="vf-c01d-")
+    try:
+        for i, addrs in enumerate(case["files"]):
+            p_ = os.path.join(d, "in", "d%d" % (i % 2), "f%d.cfg" % i)
+            os.makedirs(os.path.dirname(p_), exist_ok=True)
+            with open(p_, "w") as fh:
+                fh.write("".join("host %s\n" % txt(n) for n in addrs))
+        _, exc = guarded(anonymize_files, os.path.join(d, "in"), os.path.join(d, "out"), False, True, preserve_suffix_v4=case["B"], preserve_suffix_v6=case["B"])
+        if exc is not None:
+            return core.exc_finding(exc, case, "anonymize_files/")
+        pairs = []
+        for i, addrs in enumerate(case["files"]):
+            p_ = os.path.join(d, "out", "d%d" % (i % 2), "f%d.cfg" % i)
+            if not os.path.exists(p_):
+                return Finding("dir/output-missing", p_, case)
+            outs = open(p_).read().split("\n")[:-1]
+            if len(outs) != len(addrs):
+                return Finding("dir/line-count-changed", "%d -> %d" % (len(addrs), len(outs)), case)
+            for n, o in zip(addrs, outs):
+                try:
+                    pairs.append((i, n, int(ipaddress.ip_address(o.split(" ", 1)[1]))))
+                except (ValueError, IndexError):
+                    return Finding("dir/output-token-not-an-address", "%r" % o, case)
+    finally:
+        shutil.rmtree(d, ignore_errors=True)
+    ev.case(case, len(case["files"]) >= 2, ["dir-without-salt", "v%d" % fam, "files%d" % len(case["files"])])
+    for x in range(len(pairs)):
+        for y in range(x + 1, len(pairs)):
+            (fi, a, ia), (fj, b, ib) = pairs[x], pairs[y]
+            if G.cpl(a, b, W) != G.cpl(ia, ib, W):
+                return Finding(
+                    "dir/cpl-not-preserved-within-one-saltless-run:%s" % ("same-file" if fi == fj else "across-files"),
+                    "%s (file %d) and %s (file %d) share %d bits, their images %s and %s share %d" % (txt(a), fi, txt(b), fj, G.cpl(a, b, W), txt(ia), txt(ib), G.cpl(ia, ib, W)),
+                    case,
+                )
+    return None
+
+
+REPLAY["dir_nosalt"] = check_dir_nosalt
+
+
+@st.composite
+def _dir_case(draw):
+    fam = draw(st.sampled_from([4, 4, 6]))
+    W = 32 if fam == 4 else 128
+    a = draw(G.u32.filter(lambda x: x >> 24 not in (10,) and not G.is_mask(x)) if fam == 4 else G.v6_int)
+    pool = [a]
+    for _ in range(draw(st.integers(2, 7))):
+        n = draw(G.neighbour(draw(st.sampled_from(pool)), W))
+        if fam == 6 or not G.is_mask(n):
+            pool.append(n)
+    nf = draw(st.integers(1, 4))
+    files = [[] for _ in range(nf)]
+    for n in pool:
+        files[draw(st.integers(0, nf - 1))].append(n)
+    if draw(st.booleans()):
+        files[-1].append(pool[0])  # the same address in another file
+    return {"fam": fam, "files": [f for f in files if f], "B": draw(st.sampled_from([8, 0, 8, 16]))}
+
+
+def t_dir_nosalt(shard, nshards, seed, ev, known, n=60):
+    return core.hyp_drive(_dir_case(), check_dir_nosalt, n, seed, ev, known, check_name="dir_nosalt")
 
 
 def t_pairs(shard, nshards, seed, ev, known, n=1000):
@@ -485,6 +572,7 @@ def plan(tier):
         Task("pairs", t_pairs, shards=4 if q else 16, n=1500 if q else 40000),
         Task("text", t_text, shards=3 if q else 16, n=600 if q else 20000),
         Task("text_long", t_text_long, shards=2 if q else 6, n=6000 if q else 20000),
+        Task("dir_nosalt", t_dir_nosalt, shards=1 if q else 8, n=60 if q else 1500),
         Task("bulk", t_bulk, shards=4 if q else 16, n=2 if q else 10, size=7000 if q else 14000),
         Task("bulk_long", t_bulk, shards=2 if q else 8, n=1 if q else 4, size=30000 if q else 60000),
         Task("exh_real", t_exh_real, shards=6 if q else 16, w=10 if q else 16, ncfg=99),
